@@ -13,7 +13,8 @@ import (
 )
 
 // re-entrant observers: what the callback does besides counting
-var reKinds = []string{"registers-observer", "reads-getters", "calls-setvalues", "triggers-reload"}
+var reKinds = []string{"registers-observer", "reads-getters", "calls-setvalues", "triggers-reload",
+	"panics-first-call", "panics-kth-call", "panics-on-value"}
 
 type fileVerT struct {
 	text     string
@@ -251,6 +252,8 @@ func (h *harness) streamHistory(n, maxSteps int) {
 		childSince := map[*obsTarget]int{} // the round (reload number) in which the child appeared
 		round := 0
 		nested := false
+		panicFired, everPanicked := false, false
+		panicK := 2 + h.rng.Intn(2)
 		makeReentrant := func(t *obsTarget) {
 			t.light = true
 			kind := reKind
@@ -275,6 +278,22 @@ func (h *harness) streamHistory(n, maxSteps int) {
 					if t.count <= 2 {
 						m := map[string]string{"written_by_observer": fmt.Sprint(t.count)}
 						c.SetValues(&m)
+					}
+				case "panics-first-call", "panics-kth-call", "panics-on-value":
+					// a failing callback: reload recovers the panic; the observers not yet visited in this round
+					// are not called for this change (map iteration order decides which)
+					fire := false
+					switch kind {
+					case "panics-first-call":
+						fire = t.count == 1
+					case "panics-kth-call":
+						fire = t.count == panicK
+					default:
+						fire = c.GetValue("k") == "true" || c.GetValue("a") == "1" || c.GetValue("key1") == "x"
+					}
+					if fire {
+						panicFired, everPanicked = true, true
+						panic("observer " + t.name + " fails in ApplyConfig")
 					}
 				case "triggers-reload":
 					if fc, ok := c.(*conffile.FileConfig); ok && !nested {
@@ -328,12 +347,32 @@ func (h *harness) streamHistory(n, maxSteps int) {
 		var prevVer [2]int64 = [2]int64{-1, -1}
 		prevRaced := false   // the previous reload had an edit landing in its middle
 		prevMissing := false // the previous reload found no file
+		expectReset := false // the configuration remembers a file: its disappearance must reset it to the defaults
+		runs := 0            // notification rounds so far (reloads that called at least one observer)
 		prevCount := 0
 		afterReload := func() {
-			logOp("reload", "notified", ce.obs.count)
+			// who was called by this reload
+			roundHappened := false
+			var visited []string
+			for _, t := range append(append([]*obsTarget{}, targets...), children...) {
+				if t.count > t.prev {
+					roundHappened = true
+					visited = append(visited, fmt.Sprint(t.id))
+				}
+			}
+			if roundHappened {
+				runs++
+			}
+			panicRound := panicFired
+			panicFired = false
+			refCalled := ce.obs.count > ce.obs.prev
+			logOp("reload", "notification_rounds", runs, "observer_panicked", panicRound)
 			h.rep.Count("history:reload")
+			if panicRound {
+				h.rep.Count("history:reload-with-observer-panic")
+			}
 			hs := snapshot()
-			cnt := ce.obs.count
+			cnt := runs
 			thisRound := round
 			round++
 			if dead {
@@ -371,7 +410,7 @@ func (h *harness) streamHistory(n, maxSteps int) {
 							break
 						}
 					}
-					if !dead && cnt == prevCount+1 {
+					if !dead && cnt == prevCount+1 && refCalled {
 						// "notified after each change": inside the notification the getters already answer from the new file
 						for k, v := range m {
 							if got := ce.obs.last[k]; got != strings.TrimSpace(v) {
@@ -383,6 +422,12 @@ func (h *harness) streamHistory(n, maxSteps int) {
 							}
 						}
 					}
+					if !dead && cnt != prevCount+1 && everPanicked && !panicRound {
+						h.rep.Fail("property", "reload:observers-silenced-after-observer-panic",
+							fmt.Sprintf("an observer panicked in an earlier notification (reload recovered it); now the file changed (%s) and nobody was notified", what),
+							map[string]interface{}{"history": hs})
+						dead = true
+					}
 					if !dead && cnt != prevCount+1 {
 						h.rep.Fail("property", key,
 							fmt.Sprintf("the file changed but the observers were not notified by the reload (%s; notifications so far: %d)", what, cnt),
@@ -392,7 +437,37 @@ func (h *harness) streamHistory(n, maxSteps int) {
 				}
 				prevVer = ver
 				prevMissing = false
+				expectReset = true // a stamp of an existing file is remembered now
 			} else {
+				// the file is gone: if the configuration remembered a file, it must now show the defaults (and only
+				// them) and, since the observers are told about a reset, a notification round must have run
+				if expectReset {
+					keys := ce.c.GetKeys()
+					sort.Strings(keys)
+					bad := ""
+					if strings.Join(keys, "\x00") != strings.Join(h.defaultKeys, "\x00") {
+						bad = fmt.Sprintf("the keys are %q, the defaults have %d keys", keys, len(h.defaultKeys))
+					} else {
+						for _, k := range keys {
+							if got := ce.c.GetValue(k); got != strings.TrimSpace(h.defaults[k]) {
+								bad = fmt.Sprintf("key %q reads %q, the default is %q", k, got, h.defaults[k])
+								break
+							}
+						}
+					}
+					if bad != "" {
+						h.rep.Fail("property", "reload:file-gone-defaults-not-applied",
+							"the file disappeared and a reload ran, but the configuration does not show the defaults: "+bad,
+							map[string]interface{}{"history": hs})
+						dead = true
+					} else if h.notifyReset && !roundHappened {
+						h.rep.Fail("property", "reload:file-gone-not-notified",
+							"the file disappeared, the configuration went back to the defaults, but no observer was notified",
+							map[string]interface{}{"history": hs})
+						dead = true
+					}
+					expectReset = false
+				}
 				// the file was absent at this reload: whatever appears later must be loaded, even with the
 				// stamp (mtime, size) the configuration had seen before the file went away
 				prevVer = [2]int64{-1, -1}
@@ -404,12 +479,15 @@ func (h *harness) streamHistory(n, maxSteps int) {
 			for _, t := range targets {
 				d := t.count - t.prev
 				t.prev = t.count
-				if t == ce.obs || dead {
+				if dead {
 					continue
 				}
 				exp := 0
 				if t.registered {
 					exp = refDelta
+				}
+				if panicRound && t.registered && (d == 0 || d == 1) {
+					continue // a round cut short by a panic: visited or not, map order decides
 				}
 				if d != exp {
 					key := "observer:registered-" + t.when + "-not-notified"
@@ -431,8 +509,8 @@ func (h *harness) streamHistory(n, maxSteps int) {
 				if dead {
 					continue
 				}
-				if childSince[ch] == thisRound {
-					// the round in which it was registered: 0 or 1 calls
+				if childSince[ch] == thisRound || panicRound {
+					// the round in which it was registered (or a round cut short by a panic): 0 or 1 calls
 					if d > 1 {
 						h.rep.Fail("property", "observer:notified-too-often", fmt.Sprintf("observer %q registered from a callback was called %d times in one round", ch.name, d), map[string]interface{}{"history": hs})
 						dead = true
@@ -449,7 +527,12 @@ func (h *harness) streamHistory(n, maxSteps int) {
 				return // the rest of this history is not compared with the model
 			}
 			rline := "R"
-			if racePre != nil && len(pendingE) == 1 {
+			if panicRound {
+				rline = "RP " + vh.List(visited)
+				if len(visited) == 0 {
+					rline = "RP []"
+				}
+			} else if racePre != nil && len(pendingE) == 1 {
 				// the model's racing reload: reload of the present file during which it becomes the edited one
 				rline = "RR " + strings.TrimPrefix(pendingE[0].line, "E ")
 				pendingE = nil
@@ -520,6 +603,28 @@ func (h *harness) streamHistory(n, maxSteps int) {
 				return
 			}
 			afterReload()
+		}
+		goAway := func() {
+			if !exists {
+				return
+			}
+			away = &fileVerT{curText, curNs, curSize}
+			awayRenamed = !isDir && h.rng.Chance(50)
+			if isDir {
+				away = nil
+			}
+			if awayRenamed {
+				os.Remove(bak)
+				os.Rename(path, bak)
+				logOp("rename-away")
+				h.rep.Count("history:rename-away")
+			} else {
+				os.RemoveAll(path)
+				logOp("delete")
+				h.rep.Count("history:delete")
+			}
+			exists, isDir = false, false
+			add(check{line: "D", want: "ok"})
 		}
 		restore := func() {
 			if exists || away == nil {
@@ -640,27 +745,38 @@ func (h *harness) streamHistory(n, maxSteps int) {
 				edit(true) // deleted and created again
 			case x < 35 && exists:
 				// the file goes away: deleted, or renamed away (a later restore keeps its stamp)
-				away = &fileVerT{curText, curNs, curSize}
-				awayRenamed = !isDir && h.rng.Chance(50)
-				if isDir {
-					away = nil
-				}
-				if awayRenamed {
-					os.Remove(bak)
-					os.Rename(path, bak)
-					logOp("rename-away")
-					h.rep.Count("history:rename-away")
-				} else {
-					os.RemoveAll(path)
-					logOp("delete")
-					h.rep.Count("history:delete")
-				}
-				exists, isDir = false, false
-				add(check{line: "D", want: "ok"})
+				goAway()
 				if h.rng.Chance(60) {
 					reload() // the configuration notices that the file is missing
 					if h.rng.Chance(50) && !hung {
 						restore() // … and the same file comes back with its old stamp
+						reload()
+					}
+				}
+			case x < 43 && exists && !wf && !h.mustLoadFatal:
+				// an unparsable intermediate version (self-referential or unterminated ${…}, bad escape, a file caught
+				// half-written), noticed by a reload; then, often, the file goes away / comes back
+				text := h.rng.PickStr([]string{"a=${a}\n", "k=1\na=${b\n", "k=\\u12\n", "=v\n", "k=1\nnext=half\\", "a=${b}\nb=${a}\n"})
+				if isDir {
+					os.RemoveAll(path)
+					isDir = false
+				}
+				writeFile(path, text)
+				sec += int64(1 + h.rng.Intn(3))
+				tm := time.Unix(sec, nsInSec)
+				os.Chtimes(path, tm, tm)
+				haveInstant = true
+				curText = text
+				curNs, curSize = statNs(path)
+				logOp("edit-unparsable", "text", text, "mtime_ns", curNs)
+				h.rep.Count("history:edit-unparsable")
+				add(check{line: fmt.Sprintf("E %d %s", curNs, encStr(text)), want: "ok"})
+				reload()
+				if h.rng.Chance(70) && !hung {
+					goAway()
+					reload()
+					if h.rng.Chance(50) && !hung {
+						restore()
 						reload()
 					}
 				}
@@ -691,7 +807,7 @@ func (h *harness) streamHistory(n, maxSteps int) {
 				reload()
 			case x < 68:
 				// an external edit lands in the middle of the reload: after reload took the stamp and read the file
-				if exists && !dead && reKind != "triggers-reload" { // (a nested reload would legitimately load the racing edit)
+				if exists && !dead && reKind != "triggers-reload" && !strings.HasPrefix(reKind, "panics") { // (a nested reload would legitimately load the racing edit)
 					if _, _, err := libRead(curText); err == nil {
 						h.rep.Count("history:edit-during-reload")
 						rp.hook = func() {
